@@ -429,16 +429,38 @@ func c09Run(c *caseCtx) (res caseResult) {
 				fp := e.Spawn(func() actor.Receiver { return fresh }, "mon", actor.WithID(fmt.Sprintf("fresh%d", round)))
 				e.Subscribe(fp)
 				if fresh.flush(e, wd/3) {
-					res.violate("subscribers that never unsubscribed stopped receiving events (a freshly subscribed monitor does receive them): the event stream lost its subscribers, undeliverable messages now surface to nobody (%s)", res.Desc)
-					return
+					// The stream works, and the marker the fresh monitor has seen was broadcast to the sentinel as well
+					// (behind everything broadcast before). A sentinel that is still working through its backlog is slow,
+					// not dropped: "never" is decided on state - the process has come to rest and the sentinel still
+					// does not hold that marker.
+					last := atomic.LoadInt64(&markerCounter)
+					has := func() bool {
+						return sentinel.count(func(x any) bool { mk, is := x.(markerEvent); return is && mk.N == last }) > 0
+					}
+					prog := func() int64 { return int64(sentinel.count(func(any) bool { return true })) }
+					for tries := 0; ; tries++ {
+						if fin, _ := settle(4*wd, 20*time.Second, has, prog); fin {
+							break
+						}
+						if rest, where := atRest(3 * time.Second); rest && !has() {
+							res.violate("subscribers that never unsubscribed stopped receiving events (a freshly subscribed monitor does receive them, and the process has come to rest: %s): the event stream lost its subscribers, undeliverable messages now surface to nobody (%s)", where, res.Desc)
+							return
+						} else if tries >= 2 {
+							res.inconclusive("the sentinel has not caught up with the event stream and the process is not at rest: %s (%s)", where, res.Desc)
+							return
+						}
+					}
+					ok = true
 				}
 			}
-			if cnt > bound {
-				res.violate("the event stream does not settle: %d events after %d sends and still growing (bound %d)", cnt, n, bound)
-			} else {
-				res.inconclusive("marker did not come back through the event stream")
+			if !ok {
+				if cnt > bound {
+					res.violate("the event stream does not settle: %d events after %d sends and still growing (bound %d)", cnt, n, bound)
+				} else {
+					res.inconclusive("marker did not come back through the event stream")
+				}
+				return
 			}
-			return
 		}
 		cnt := sentinel.count(func(x any) bool { _, ok := x.(actor.DeadLetterEvent); return ok })
 		if cnt == prev {
